@@ -70,6 +70,48 @@ Section Generic.
     apply IH. apply (Hc i s c Hi E).
   Qed.
 
+  (* ---------------------------------------------------------------- the DFS *)
+  Lemma g_collect_spec : forall fuel i pr k,
+    In k (g_collect trans isfin fuel i pr) <->
+    exists k2, k = rev pr ++ k2 /\ g_lookup trans isfin i k2 = true /\ bytes_ok k2 /\ (length k2 < fuel)%nat.
+  Proof.
+    induction fuel as [|f IH]; intros i pr k; cbn [g_collect].
+    - split; [intros [] | intros (k2 & _ & _ & _ & H); lia].
+    - rewrite in_app_iff, in_flat_map. split.
+      + intros [HA|(s & Hs & Hin)].
+        * destruct (isfin i) eqn:F; [|destruct HA]. destruct HA as [<-|[]].
+          exists []. rewrite app_nil_r. repeat split; [assumption | constructor | cbn; lia].
+        * apply byte_range_iff in Hs. destruct (trans i s) as [c|] eqn:E; [|destruct Hin].
+          apply IH in Hin as (k3 & -> & L & B & Hl).
+          exists (s :: k3). cbn [rev]. rewrite <- app_assoc. cbn [app].
+          repeat split; [rewrite g_lookup_cons, E; assumption | constructor; assumption | cbn [length]; lia].
+      + intros (k2 & -> & L & B & Hl). destruct k2 as [|s k3].
+        * left. rewrite g_lookup_nil in L. rewrite L, app_nil_r. left; reflexivity.
+        * right. inversion B as [|? ? Hs B3]; subst. exists s. split; [apply byte_range_iff; assumption|].
+          rewrite g_lookup_cons in L. destruct (trans i s) as [c|] eqn:E; [|discriminate].
+          apply IH. exists k3. cbn [rev]. rewrite <- app_assoc. cbn [app length] in *.
+          repeat split; [assumption | assumption | lia].
+  Qed.
+
+  Lemma g_collect_nodup : forall fuel i pr, NoDup (g_collect trans isfin fuel i pr).
+  Proof.
+    induction fuel as [|f IH]; intros i pr; cbn [g_collect]; [constructor|].
+    apply nodup_app_intro.
+    - destruct (isfin i); [constructor; [intros []|constructor] | constructor].
+    - apply NoDup_flat_map_disjoint.
+      + apply byte_range_nodup.
+      + intros s _. destruct (trans i s); [apply IH | constructor].
+      + intros a b x _ _ Ha Hb.
+        destruct (trans i a) as [ca|]; [|destruct Ha]. destruct (trans i b) as [cb|]; [|destruct Hb].
+        apply g_collect_spec in Ha as (ka & Ea & _). apply g_collect_spec in Hb as (kb & Eb & _).
+        cbn [rev] in Ea, Eb. rewrite <- app_assoc in Ea, Eb. rewrite Ea in Eb.
+        apply app_inv_head in Eb. cbn [app] in Eb. inversion Eb. reflexivity.
+    - intros x Hx Hin. destruct (isfin i); [|destruct Hx]. destruct Hx as [<-|[]].
+      apply in_flat_map in Hin as (s & _ & Hs). destruct (trans i s) as [c|]; [|destruct Hs].
+      apply g_collect_spec in Hs as (k2 & E & _). cbn [rev] in E. rewrite <- app_assoc in E.
+      rewrite <- (app_nil_r (rev pr)) in E at 1. apply app_inv_head in E. discriminate.
+  Qed.
+
   (* ---------------------------------------------------------------- ghost addresses *)
   Variable live : St -> Prop.
   Variable addr : St -> list N.
@@ -135,48 +177,6 @@ Section Generic.
     assert (Hle : (length (g_trail i k) <= length sts)%nat).
     { apply NoDup_incl_length; [assumption|]. intros j Hj. apply Hs. apply (F j Hj). }
     lia.
-  Qed.
-
-  (* ---------------------------------------------------------------- the DFS *)
-  Lemma g_collect_spec : forall fuel i pr k,
-    In k (g_collect trans isfin fuel i pr) <->
-    exists k2, k = rev pr ++ k2 /\ g_lookup trans isfin i k2 = true /\ bytes_ok k2 /\ (length k2 < fuel)%nat.
-  Proof.
-    induction fuel as [|f IH]; intros i pr k; cbn [g_collect].
-    - split; [intros [] | intros (k2 & _ & _ & _ & H); lia].
-    - rewrite in_app_iff, in_flat_map. split.
-      + intros [HA|(s & Hs & Hin)].
-        * destruct (isfin i) eqn:F; [|destruct HA]. destruct HA as [<-|[]].
-          exists []. rewrite app_nil_r. repeat split; [assumption | constructor | cbn; lia].
-        * apply byte_range_iff in Hs. destruct (trans i s) as [c|] eqn:E; [|destruct Hin].
-          apply IH in Hin as (k3 & -> & L & B & Hl).
-          exists (s :: k3). cbn [rev]. rewrite <- app_assoc. cbn [app].
-          repeat split; [rewrite g_lookup_cons, E; assumption | constructor; assumption | cbn [length]; lia].
-      + intros (k2 & -> & L & B & Hl). destruct k2 as [|s k3].
-        * left. rewrite g_lookup_nil in L. rewrite L, app_nil_r. left; reflexivity.
-        * right. inversion B as [|? ? Hs B3]; subst. exists s. split; [apply byte_range_iff; assumption|].
-          rewrite g_lookup_cons in L. destruct (trans i s) as [c|] eqn:E; [|discriminate].
-          apply IH. exists k3. cbn [rev]. rewrite <- app_assoc. cbn [app length] in *.
-          repeat split; [assumption | assumption | lia].
-  Qed.
-
-  Lemma g_collect_nodup : forall fuel i pr, NoDup (g_collect trans isfin fuel i pr).
-  Proof.
-    induction fuel as [|f IH]; intros i pr; cbn [g_collect]; [constructor|].
-    apply nodup_app_intro.
-    - destruct (isfin i); [constructor; [intros []|constructor] | constructor].
-    - apply NoDup_flat_map_disjoint.
-      + apply byte_range_nodup.
-      + intros s _. destruct (trans i s); [apply IH | constructor].
-      + intros a b x _ _ Ha Hb.
-        destruct (trans i a) as [ca|]; [|destruct Ha]. destruct (trans i b) as [cb|]; [|destruct Hb].
-        apply g_collect_spec in Ha as (ka & Ea & _). apply g_collect_spec in Hb as (kb & Eb & _).
-        cbn [rev] in Ea, Eb. rewrite <- app_assoc in Ea, Eb. rewrite Ea in Eb.
-        apply app_inv_head in Eb. cbn [app] in Eb. inversion Eb. reflexivity.
-    - intros x Hx Hin. destruct (isfin i); [|destruct Hx]. destruct Hx as [<-|[]].
-      apply in_flat_map in Hin as (s & _ & Hs). destruct (trans i s) as [c|]; [|destruct Hs].
-      apply g_collect_spec in Hs as (k2 & E & _). cbn [rev] in E. rewrite <- app_assoc in E.
-      rewrite <- (app_nil_r (rev pr)) in E at 1. apply app_inv_head in E. discriminate.
   Qed.
 
   (* with enough fuel the DFS from a live state lists exactly the accepted continuations *)
